@@ -101,6 +101,13 @@ def finalizeLengthsOK (s : Spec K) (cfg : Config) (t : ModType) : Bool :=
     | .shapesys | .staterror => nom == (uncrtTab s cfg n t sm).length
     | _ => true
 
+/-- **Not checked by the code** (only the concatenated lengths are): every histosys variation has the
+bin count of its own channel.  Part of the well-formedness hypothesis of the C01 theorems. -/
+def histoBlocksOK (s : Spec K) (cfg : Config) : Bool :=
+  cfg.channels.all fun c => cfg.samples.all fun sm =>
+    ((cfg.modifiers.filter (·.2 == ModType.histosys)).map (·.1)).all fun n => [false, true].all fun hi =>
+      (varBlk s cfg n .histosys sm hi c).length == cfg.nbOf c
+
 /-- `ParamViewer.index_selection` of a name, unbatched: the indices of its slice -/
 def selection (sl : List (String × Nat × Nat)) (n : String) : List Nat :=
   let (a, b) := sliceOf sl n
@@ -116,9 +123,12 @@ def scatterFrom (sel : List Nat) : List Bool → Nat → List Nat
 
 def scatter (mask : List Bool) (sel : List Nat) : List Nat := scatterFrom sel mask 0
 
-/-- the mask row used by `_reindex_access_field`: the **last** sample with any `True` -/
+/-- the sample whose mask row `_reindex_access_field` uses: the **last** sample with any `True` -/
+def singularSample (s : Spec K) (cfg : Config) (n : String) (t : ModType) : Option String :=
+  (cfg.samples.filter fun sm => (maskTab s cfg n t sm).any id).getLast?
+
 def singularMask (s : Spec K) (cfg : Config) (n : String) (t : ModType) : Option (List Bool) :=
-  ((cfg.samples.map fun sm => maskTab s cfg n t sm).filter (·.any id)).getLast?
+  (singularSample s cfg n t).map (maskTab s cfg n t)
 
 /-- per-channel block of the shapefactor access field: bin `b` reads `selection[b]`, falling back to flat
 index **0** when the channel has more bins than the parameter set has components -/
@@ -141,25 +151,36 @@ def reindexError (s : Spec K) (cfg : Config) (sl : List (String × Nat × Nat)) 
       let k := (selection sl n).length
       if k != m.count true && k != 1 then some .pyValueError else none
 
-def buildModel (P : Prim K) (s : Spec K) (st : Settings K) : Except Err (Model K) := do
+/-- `config.set_poi` -/
+def poiCheck (poi : Option String) (ps : List (Paramset K)) (sl : List (String × Nat × Nat)) : Except Err (Option Nat) :=
+  match poi with
+  | none => .ok none
+  | some p =>
+    match ps.find? (·.name == p) with
+    | none => .error .invalidModel
+    | some q => if q.n > 1 then .error .invalidModel else .ok (some (sliceOf sl p).1)
+
+def buildModel (P : Prim K) (s : Spec K) (st : Settings K) : Except Err (Model K) :=
   let cfg := mkConfig s
-  if shapesysReuse s then throw .invalidModel
-  if !nominalLengthsOK s cfg then throw .invalidModel
-  if !finalizeLengthsOK s cfg .histosys then throw .invalidModifier
-  if !finalizeLengthsOK s cfg .shapesys then throw .invalidModifier
-  if !finalizeLengthsOK s cfg .staterror then throw .invalidModifier
-  let ps ← createParamsets P s cfg
-  let sl := parSlices ps
-  match reindexError s cfg sl .shapesys with | some e => throw e | none => pure ()
-  match reindexError s cfg sl .staterror with | some e => throw e | none => pure ()
-  let poiIndex ← (match st.poi with
-    | none => pure none
-    | some p =>
-      match ps.find? (·.name == p) with
-      | none => throw Err.invalidModel
-      | some q => if q.n > 1 then throw Err.invalidModel else pure (some (sliceOf sl p).1))
-  pure { spec := s, cfg := cfg, ps := ps, slices := sl, npars := (suggestedInit ps).length,
-         settings := st, poiIndex := poiIndex }
+  if shapesysReuse s then .error .invalidModel else
+  if !nominalLengthsOK s cfg then .error .invalidModel else
+  if !finalizeLengthsOK s cfg .histosys then .error .invalidModifier else
+  if !finalizeLengthsOK s cfg .shapesys then .error .invalidModifier else
+  if !finalizeLengthsOK s cfg .staterror then .error .invalidModifier else
+  match createParamsets P s cfg with
+  | .error e => .error e
+  | .ok ps =>
+    match reindexError s cfg (parSlices ps) .shapesys with
+    | some e => .error e
+    | none =>
+      match reindexError s cfg (parSlices ps) .staterror with
+      | some e => .error e
+      | none =>
+        match poiCheck st.poi ps (parSlices ps) with
+        | .error e => .error e
+        | .ok poiIndex =>
+          .ok { spec := s, cfg := cfg, ps := ps, slices := parSlices ps, npars := (suggestedInit ps).length,
+                settings := st, poiIndex := poiIndex }
 
 /-! ## evaluation -/
 
